@@ -29,7 +29,7 @@ def strict(ck, name, pkg, args, timeout=3000):
             other += 1
     ck.cov["evaluations"] += res.get("evaluations", 0)
     ck.cov["distinct_nontrivial"] += res.get("distinct", 0)
-    ck.cov["parts"]["strict:" + name] = {"evaluations": res.get("evaluations", 0), "overflow_or_assert_panics": len(mine),
+    ck.cov["parts"]["strict:" + name] = {"evaluations": res.get("evaluations", 0), "wall_s": round(res.get("wall_s", 0), 1), "overflow_or_assert_panics": len(mine),
                                          "other_findings_left_to_their_own_property": other}
     for v in mine:
         ck.violation("strict build (%s): %s" % (name, v["what"][:700]), v.get("replay", {}))
@@ -90,9 +90,11 @@ def run(tier):
     muts = os.path.join(wd, "ReadTrace.%s.out" % os.path.basename(trace))
     if ok and os.path.exists(muts):
         strict(ck, "read-mutations", "fv-total", ["c01", "mutate", "--sessions", side, "--muts", muts, "--drive-every", 6, "--out", os.path.join(wd, "e.ndjson")])
-    seeds = [vlib.seed() + i for i in range(2 if q else 10)]
-    for s in seeds:
-        strict(ck, "api-drive:%d" % s, "fv-total", ["c02", "corpus", "--seed", s, "--mutations", 24 if q else 80, "--field-stride", 18 if q else 3, "--wide-stride", 3 if q else 1, "--out", os.path.join(wd, "f.ndjson")])
+    # (the 0xFFFFFFFF / 0xFFFFFFFE sweep is complete - stride 1 - in the first thorough run only; it does not depend on the seed)
+    seeds = [vlib.seed() + i for i in range(1 if q else 4)]
+    for k, s in enumerate(seeds):
+        strict(ck, "api-drive:%d" % s, "fv-total", ["c02", "corpus", "--seed", s, "--mutations", 16 if q else 80, "--field-stride", 40 if q else 4,
+                                                       "--wide-stride", 3 if q else (1 if k == 0 else 40), "--out", os.path.join(wd, "f.ndjson")], timeout=5000)
     s0 = vlib.seed()
     strict(ck, "glyf", "fv-write", ["c09", "random", "--seed", s0, "--n", 200 if q else 1500, "--out", os.path.join(wd, "g.ndjson")])
     strict(ck, "gvar", "fv-write", ["c10", "random", "--seed", s0, "--n", 150 if q else 800, "--out", os.path.join(wd, "h.ndjson")])
